@@ -564,7 +564,13 @@ impl<'tcx> Cx<'tcx> {
             None
         };
         let ret_ty = self.ty(body.return_ty());
+        // reachable from outside the crate (public API)? private helpers may be inlined by the analyses
+        let public = match (kind, def.as_local()) {
+            (DefKind::Fn | DefKind::AssocFn, Some(ld)) => tcx.effective_visibilities(()).is_reachable(ld),
+            _ => false,
+        };
         J::O(vec![
+            ("public", J::B(public)),
             ("id", s(def_id_str(tcx, def))),
             ("q", s(qual_name(tcx, def))),
             ("pretty", s(ty::print::with_no_trimmed_paths!(tcx.def_path_str(def)))),
